@@ -7,10 +7,6 @@ Require Import Base.Wire Base.PyStr C02.Model C02.Lemmas C02.Inv.
 Require C03.Model C03.Fold C16.Model.
 Open Scope N_scope.
 
-Definition admin_add_words : list str :=
-  [[97; 100; 109; 105; 110]; [99; 97; 112; 97; 98; 105; 108; 105; 116; 121]; [97; 100; 100]].      (* admin capability add *)
-Definition chan_add_words : list str :=
-  [[99; 104; 97; 110; 110; 101; 108]; [99; 97; 112; 97; 98; 105; 108; 105; 116; 121]; [97; 100; 100]].  (* channel capability add *)
 Definition ADMIN : str := [97; 100; 109; 105; 110].
 
 (* what "entitled" means, as the code implements it, in the state and for the sender of the message *)
@@ -327,4 +323,83 @@ Proof.
       * left. exists a1. auto.
       * left. destruct (reload_caps s a1 c HI H1 Hc1) as (a & Ha & Hia & Hca). exists a. split; [exact Ha|]. split; [congruence|exact Hca].
     + right. exists (o :: pre), E, text, post. split; [rewrite Eq; reflexivity|exact G].
+Qed.
+
+(* ------------------------------------------------------------------ *)
+(* the decidable form run by the harness on the real states is the same relation *)
+Lemma strip_words_self ws a : strip_words ws (ws ++ a) = Some a.
+Proof. induction ws as [|w ws IH]; simpl; [reflexivity|]. rewrite seq_eqb_refl. exact IH. Qed.
+
+Lemma check_holds s E c : check s E c = Ok true -> holds s E c = true.
+Proof. unfold holds. intro H. rewrite H. reflexivity. Qed.
+
+Lemma grantb_sound s E text z c : grantb s E text z c = true -> grant s E text z c.
+Proof.
+  unfold grantb. intro H. apply andb_true_iff in H as [Hi H]. apply negb_true_iff in Hi.
+  destruct (tokens text) as [toks|] eqn:Ht; [|discriminate].
+  destruct (strip_words admin_add_words toks) as [args|] eqn:Sa.
+  - apply strip_words_app in Sa. subst toks.
+    destruct args as [|n [|craw [|x r]]]; try discriminate.
+    unfold grantb_admin in H. apply andb_true_iff in H as [Hg H]. apply negb_true_iff in Hg.
+    destruct (conv_other s E n) as [u|] eqn:Cu; [|discriminate].
+    repeat match type of H with (_ && _ = true) => apply andb_true_iff in H as [H ?] end.
+    match goal with K : seq_eqb c _ = true |- _ => apply seq_eqb_eq in K; subst c end.
+    destruct (C03.Model.ucs_add (caps u) (C03.Model.fold craw)) as [cs|] eqn:Ad; [|discriminate].
+    apply (GAdmin s E text z _ n craw u cs); try assumption; try reflexivity.
+    + apply Z.eqb_eq. assumption.
+    + match goal with K : negb (seq_eqb _ OWNER) = true |- _ => apply negb_true_iff, seq_eqb_neq in K; exact K end.
+    + match goal with K : _ || _ = true |- _ => apply orb_true_iff in K as [K|K]; [left; exact K|right; apply holds_check; exact K] end.
+  - destruct (strip_words chan_add_words toks) as [args|] eqn:Sc; [|discriminate].
+    apply strip_words_app in Sc. subst toks.
+    destruct args as [|ch [|n [|craw [|x r]]]]; try discriminate.
+    unfold grantb_chan in H.
+    repeat match type of H with (_ && _ = true) => apply andb_true_iff in H as [H ?] end.
+    apply negb_true_iff in H.
+    destruct (conv_other s E n) as [u|] eqn:Cu; [|discriminate].
+    destruct (C16.Model.split_ws craw) as [|w [|w2 ws2]] eqn:Sp; try discriminate.
+    match goal with K : _ && _ = true |- _ => apply andb_true_iff in K as [K K3]; apply andb_true_iff in K as [K1 K2] end.
+    apply seq_eqb_eq in K2. subst c.
+    destruct (C03.Model.ucs_add (caps u) (ch ++ [COMMA] ++ w)) as [cs|] eqn:Ad; [|discriminate].
+    apply (GChan s E text z _ ch n craw w u cs); try assumption; try reflexivity.
+    + apply holds_check. assumption.
+    + apply Z.eqb_eq. assumption.
+Qed.
+
+Lemma grantb_complete s E text z c : grant s E text z c -> grantb s E text z c = true.
+Proof.
+  intros [n craw u cs Hi Ht Hg Cu Hz Ec Tk Ow En Ad | ch n craw w u cs Hi Ht Hg Hch Hop Cu Hz Sp Ec Ad];
+    unfold grantb; rewrite Hi, Ht; cbn [negb andb].
+  - rewrite strip_words_self. unfold grantb_admin. rewrite Hg, Cu. cbn [negb andb].
+    subst c z. rewrite Z.eqb_refl, seq_eqb_refl, Tk, Ad. cbn [andb is_ok].
+    apply seq_eqb_neq in Ow. rewrite Ow. cbn [negb andb]. rewrite andb_true_r.
+    destruct En as [K|K]; [rewrite K; reflexivity|rewrite (check_holds _ _ _ K); apply orb_true_r].
+  - replace (strip_words admin_add_words (chan_add_words ++ [ch; n; craw])) with (@None (list str)) by reflexivity.
+    rewrite strip_words_self. unfold grantb_chan. rewrite Hg, Hch, (check_holds _ _ _ Hop), Cu, Sp. cbn [negb andb].
+    subst c z. rewrite Z.eqb_refl, seq_eqb_refl, Ad. reflexivity.
+Qed.
+
+Lemma grantb_iff s E text z c : grantb s E text z c = true <-> grant s E text z c.
+Proof. split; [apply grantb_sound|apply grantb_complete]. Qed.
+
+(* ------------------------------------------------------------------ *)
+(* scope of a channel-op grant: the capability granted by `channel capability add <ch> ...` is a capability of
+   that very channel, the one for which the caller's "<ch>,op" was checked — never of another channel *)
+Lemma grant_chan_scope s E text z c rest :
+  grant s E text z c -> tokens text = Some (chan_add_words ++ rest) ->
+  exists ch w r, rest = ch :: r /\ C03.Model.isChannel ch = true /\ check s E (ch ++ [COMMA] ++ OP) = Ok true /\
+                 C03.Model.split_comma c = Some (C03.Model.fold ch, C03.Model.fold w).
+Proof.
+  intros [n craw u cs Hi Ht Hg Cu Hz Ec Tk Ow En Ad | ch n craw w u cs Hi Ht Hg Hch Hop Cu Hz Sp Ec Ad] Hr.
+  - rewrite Ht in Hr. inversion Hr.
+  - rewrite Ht in Hr. inversion Hr as [Hr']. subst rest.
+    exists ch, w, [n; craw]. split; [reflexivity|]. split; [exact Hch|]. split; [exact Hop|].
+    subst c. unfold C03.Model.split_comma.
+    change (ch ++ [COMMA] ++ w) with (ch ++ COMMA :: w). rewrite C03.Fold.fold_app.
+    change (C03.Model.fold (COMMA :: w)) with (C03.Model.fold_char COMMA :: C03.Model.fold w).
+    change (C03.Model.fold_char COMMA) with (C03.Model.fold_char C03.Model.COMMA).
+    rewrite C03.Fold.fold_comma. apply split1_char.
+    rewrite C03.Fold.fold_mem by reflexivity.
+    unfold C03.Model.isChannel in Hch.
+    repeat match type of Hch with (_ && _ = true) => apply andb_true_iff in Hch as [Hch ?] end.
+    match goal with K : negb (mem C03.Model.COMMA ch) = true |- _ => apply negb_true_iff in K; exact K end.
 Qed.
